@@ -129,15 +129,17 @@ pub fn batch(cfg: &BatchCfg, args: &[(Vec<u8>, Term)]) -> Batches {
                 out.fatal = Some("-x: size limit hit before -n/-L was satisfied");
                 return out;
             }
+            // (the batch pending at a fatal point is not listed: running it first or
+            // stopping at once are both accepted by the caller)
+            if cfg.max_chars.is_some_and(|s| base_cost + cost(a) > s) {
+                out.fatal = Some("argument does not fit in an otherwise empty invocation");
+                return out;
+            }
             if !cur.is_empty() {
                 out.batches.push(std::mem::take(&mut cur));
             }
             cur_cost = base_cost;
             cur_lines_done = 0;
-            if cfg.max_chars.is_some_and(|s| cur_cost + cost(a) > s) {
-                out.fatal = Some("argument does not fit in an otherwise empty invocation");
-                return out;
-            }
         }
         cur_cost += cost(a);
         cur.push(a.clone());
